@@ -43,7 +43,46 @@ def mixed_case(rep, drv, rnd, i):
         rep.nontriv(scen.norm([scen.ops_json(ops[:1]), [q[0] for q in qs]]))
 
 
+V = lambda n: ('V', n)
+
+
+def guard_case(rep, drv, rnd, i):
+    """guard clauses: an all-variable head in which a variable may occur twice, a leading cut, then
+    catch-all clauses. The cut commits only when the head has matched; the later clauses are reachable
+    for every call the guard's head does not match."""
+    atoms = ['a', 'b', 'c']
+    prog = [('it', [('A', a)], 'tru') for a in atoms]
+    tests = []
+    for n in range(rnd.randint(2, 4)):
+        ar = rnd.randint(2, 3)
+        names = ['X', 'Y', 'Z'][:ar]
+        head = [V(rnd.choice(names[:rnd.randint(1, ar)])) for _ in range(ar)]       # repetitions likely
+        after = rnd.choice(['fail', 'tru', ('call', 'it', [head[0]]), ('conj', ('call', 'it', [head[-1]]), 'fail')])
+        name = 'g%d' % n
+        tests.append((name, head, ('conj', 'cut', after), True))
+        for _ in range(rnd.randint(1, 2)):
+            tests.append((name, [rnd.choice([('_',), V('P'), ('A', rnd.choice(atoms))]) for _ in range(ar)],
+                          rnd.choice(['tru', ('call', 'it', [V('Q')])]), True))
+        # callers with alternatives around the guarded predicate
+        tests.append(('c%d' % n, [V('A'), V('B')], ('conj', ('call', 'it', [V('A')]), ('conj', ('call', 'it', [V('B')]),
+                                                   ('call', name, [V('A'), V('B')] + [V('A')] * (ar - 2)))), True))
+    prog += tests
+    ops = [('load', 'overwrite', prog)]
+    for t in tests:
+        if t[0].startswith('c'):
+            ops.append(('query', t[0], ('all',), [[Sym('v'), 0], [Sym('v'), 1]]))
+    for n in range(len([t for t in tests if t[0].startswith('c')])):
+        ar = len([t for t in tests if t[0] == 'g%d' % n][0][1])
+        ops.append(('query', 'g%d' % n, ('all',), [[Sym('a'), 'a'], [Sym('a'), 'b']] + [[Sym('v'), 5]] * (ar - 2)))
+        ops.append(('query', 'g%d' % n, ('all',), [[Sym('v'), 0], [Sym('v'), 1]] + [[Sym('v'), 0]] * (ar - 2)))
+    rep.count('guard-clauses')
+    if scen.three_way(rep, drv, ops, 'case %d guards' % i) == 'ok':
+        rep.nontriv(scen.norm(scen.ops_json(ops[:1])))
+
+
 def case(rep, drv, rnd, i, tier):
+    if i % 16 == 9:
+        return guard_case(rep, drv, rnd, i)
     if i % 4 == 3:
         return mixed_case(rep, drv, rnd, i)
     return progcheck.case(rep, drv, rnd, i, tier)
@@ -56,7 +95,8 @@ def run(tier):
         par.run_cases(chk.rep, 'harness.checks.c05', 'case', n)
         chk.finish(rule='stratified random programs whose rule bodies contain ! as first/middle/last goal, inside ; branches '
                         'and inside then/else branches (never inside a condition or \\+), with multi-clause predicates '
-                        'called from callers that have alternatives; leaf goals have 0-3 solutions; one case in four mixes in fact '
+                        'called from callers that have alternatives; leaf goals have 0-3 solutions; one case in sixteen: guard clauses '
+                        '(all-variable heads with repeated variables, leading cut, catch-all clauses behind); one case in four mixes in fact '
                         'predicates re-implemented as Python generators that yield True and definitions chained by a second load; '
                         'non-trivial = the reference yields >= 1 answer; distinct = distinct (program, query)')
 
